@@ -26,7 +26,7 @@ import (
 // c04.req   method path rawpath opaque rawquery host remoteaddr header contentLength bodyLen bodySeed
 //           targetParts targetString without upRules flags
 //   out   = method scheme urlhost path rawpath opaque rawquery reqhost header contentLength body
-// c04.resp  status header announced trailer bodyLen bodySeed preHeader downRules flags
+// c04.resp  status header announced trailer bodyLen bodySeed preHeader downRules flags downRepls
 //   out   = status header trailers body
 //
 // The real code path: proxy.NewStaticUpstreams (Casketfile) -> proxy.Proxy.ServeHTTP -> ReverseProxy.ServeHTTP,
@@ -210,12 +210,15 @@ func c04DecRepls(s string) ([]c04Repl, bool) {
 	return out, true
 }
 
-func c04Literal(s string) bool {
+func c04Literal(s string, replacement bool) bool {
 	if s == "" {
 		return false
 	}
 	for i := 0; i < len(s); i++ {
 		c := s[i]
+		if replacement && (c == '.' || c == ':') {
+			continue
+		}
 		if !(c >= 'a' && c <= 'z' || c >= 'A' && c <= 'Z' || c >= '0' && c <= '9' || c == '-' || c == '_' || c == ' ' || c == '=' || c == ';' || c == '/' || c == ',') {
 			return false
 		}
@@ -231,7 +234,7 @@ func c04ReplLines(directive string, rs []c04Repl) (string, bool) {
 		}
 		for _, p := range r.pairs {
 			// literal pattern, no `$` (template expansion) in the replacement
-			if !c04Literal(p[0]) || p[1] == "" || !c04Literal(p[1]) {
+			if !c04Literal(p[0], false) || !c04Literal(p[1], true) {
 				return "", false
 			}
 			fmt.Fprintf(&b, " %s %s %s %s\n", directive, c04Tok(r.field), c04Tok(p[0]), c04Tok(p[1]))
@@ -453,7 +456,7 @@ func (b *c04TrailerBody) Read(p []byte) (int, error) {
 func (b *c04TrailerBody) Close() error { return nil }
 
 func c04RespEval(f []string) (string, []string) {
-	if len(f) != 9 {
+	if len(f) != 10 {
 		return "bad-case", nil
 	}
 	status, err1 := strconv.Atoi(f[0])
@@ -476,7 +479,15 @@ func c04RespEval(f []string) (string, []string) {
 	if !ok {
 		return "bad-case:rules", nil
 	}
-	cfg := "proxy / http://backend.test:8080 {\n" + ruleLines + "}\n"
+	repls, rok := c04DecRepls(f[9])
+	if !rok {
+		return "bad-case:repls", nil
+	}
+	replLines, rok := c04ReplLines("header_downstream", repls)
+	if !rok {
+		return "bad-case:repls", nil
+	}
+	cfg := "proxy / http://backend.test:8080 {\n" + ruleLines + replLines + "}\n"
 	body := c04Body(bodyLen, bodySeed)
 	seen := &c04Seen{}
 	tr := &c04Transport{seen: seen, respond: func(req *http.Request) *http.Response {
@@ -531,6 +542,12 @@ func c04RespEval(f []string) (string, []string) {
 	}
 	if len(rules) > 0 {
 		tags = append(tags, "downstream-rules")
+	}
+	if len(repls) > 0 {
+		tags = append(tags, "downstream-replacements")
+		if len(rules) == 0 {
+			tags = append(tags, "only-downstream-replacements")
+		}
 	}
 	if len(pre) > 0 {
 		tags = append(tags, "pre-existing-headers")
@@ -959,13 +976,13 @@ func c04ReqGen(g *hx.Gen) {
 
 func c04RespGen(g *hx.Gen) {
 	r := g.Rng
-	emit := func(status int, hdr []c04Entry, announced []string, final []c04Entry, bodyLen int, seed uint64, pre, rules []c04Entry) {
+	emit := func(status int, hdr []c04Entry, announced []string, final []c04Entry, bodyLen int, seed uint64, pre, rules []c04Entry, repls ...c04Repl) {
 		enc := make([]string, len(announced))
 		for i, a := range announced {
 			enc[i] = hx.HS(a)
 		}
 		g.Case(strconv.Itoa(status), c04EncEntries(hdr), strings.Join(enc, ","), c04EncEntries(final), strconv.Itoa(bodyLen),
-			strconv.FormatUint(seed, 10), c04EncEntries(pre), c04EncEntries(rules), "")
+			strconv.FormatUint(seed, 10), c04EncEntries(pre), c04EncEntries(rules), "", c04EncRepls(repls))
 	}
 	statuses := []int{200, 201, 204, 206, 301, 302, 304, 400, 401, 403, 404, 418, 429, 500, 502, 503, 599}
 	base := []c04Entry{{"Content-Type", []string{"text/plain"}}, {"X-B", []string{"b1", "b2"}}, {"Set-Cookie", []string{"a=1", "b=2"}}}
@@ -1007,6 +1024,29 @@ func c04RespGen(g *hx.Gen) {
 				es = []c04Entry{{k, []string{"from-backend", "second"}}}
 			}
 			emit(200, es, nil, nil, 5, 3, []c04Entry{{k, []string{"from-middleware"}}}, nil)
+		}
+	}
+	// 3b. header_downstream replacements: blocks with only replacements, only plain rules, both, none;
+	//     x value shapes of the rewritten header x pre-existing ResponseWriter header of that name
+	locs := [][]string{nil, {"http://internal.local/login"}, {"", "http://internal.local/x"}, {"http://internal.local/a", "http://internal.local/b"}, {"/relative"}}
+	replSets := [][]c04Repl{
+		nil,
+		{{"Location", [][2]string{{"internal", "example.com:8443"}}}},
+		{{"location", [][2]string{{"internal", "public"}, {"http", "https"}}}, {"Set-Cookie", [][2]string{{"a", "b"}}}},
+		{{"X-B", [][2]string{{"b", "bb"}}}},
+	}
+	plainSets := [][]c04Entry{nil, {{"+X-Extra", []string{"v"}}}, {{"Location", []string{"http://internal.local/set"}}}, {{"-Etag", []string{""}}}}
+	for _, loc := range locs {
+		for _, rs := range replSets {
+			for _, ps := range plainSets {
+				for _, pre := range [][]c04Entry{nil, {{"Location", []string{"http://internal.local/pre"}}}} {
+					es := []c04Entry{{"X-B", []string{"b1", "b2"}}, {"Set-Cookie", []string{"a=1", "b=2"}}, {"Etag", []string{`"x"`}}}
+					if loc != nil {
+						es = append(es, c04Entry{"Location", loc})
+					}
+					emit(302, es, nil, nil, 3, 4, pre, ps, rs...)
+				}
+			}
 		}
 	}
 	// 4. trailers: announced, unannounced, both, announced but never sent; body sizes around the copy buffer
@@ -1073,7 +1113,15 @@ func c04RespGen(g *hx.Gen) {
 		if r.Chance(2, 3) {
 			n = r.Intn(70000)
 		}
-		emit(hx.Pick(r, statuses), hdr, announced, final, n, r.U64()%1000, pre, c04RandRules(r, append(append([]string{}, c04RespNames...), "Connection", "Keep-Alive")))
+		var repls []c04Repl
+		if r.Chance(1, 3) {
+			repls = c04RandRepls(r, c04RespNames)
+		}
+		var rules []c04Entry
+		if !r.Chance(1, 4) {
+			rules = c04RandRules(r, append(append([]string{}, c04RespNames...), "Connection", "Keep-Alive"))
+		}
+		emit(hx.Pick(r, statuses), hdr, announced, final, n, r.U64()%1000, pre, rules, repls...)
 	}
 }
 
